@@ -783,3 +783,36 @@ def closure_env(nf: NF, fn: ast.FunctionDef, inner: ast.FunctionDef, mi, outer_e
                 except Exception:
                     continue
     return out
+
+
+def with_callees_inlined(repo, fn: ast.FunctionDef, qual: str, cls_qual=None):
+    """Copy of ``fn`` in which the calls to repository functions it makes directly are expanded in place even when the callee belongs
+    to the frozen surface (a wrapper that forwards to a sibling is then read like the sibling's body with the wrapper's arguments).
+    Returns None when nothing could be expanded.  The original tree is not touched."""
+    from .expand import Expander, clone, load_known
+    mi = fn._module
+    callees = set()
+    for n in ast.walk(fn):
+        if isinstance(n, ast.Call) and isinstance(n.func, (ast.Name, ast.Attribute)):
+            try:
+                r = repo.resolve_expr(mi, n.func)
+            except Exception:
+                r = None
+            if r and r.startswith(repo.PKG + ".") and repo.has(r):
+                callees.add(r)
+    if not callees:
+        return None
+    new = clone(fn)
+    new._module = mi
+    new._parent = getattr(fn, "_parent", None)
+    ex = Expander(repo, load_known() - callees, max_depth=1)
+    try:
+        changed = ex.expand_function(new, mi, cls_qual, qual)
+    except Exception:
+        return None
+    if not changed:
+        return None
+    for parent in ast.walk(new):
+        for child in ast.iter_child_nodes(parent):
+            child._parent = parent
+    return new
